@@ -90,6 +90,19 @@ func (c *C12Case) payload() []byte {
 		if int64(len(base)) <= c.Size {
 			return append(append([]byte{}, base...), bytes.Repeat([]byte{'\n'}, int(c.Size)-len(base))...)
 		}
+	case "valid-nul-padded", "valid-ff-padded", "valid-bom-padded":
+		// trailing bytes that are NOT XML (NUL, 0xFF) or a byte-order mark after the root: the uncompressed
+		// presentation is refused, so the compressed one must be as well — and the padding counts towards the
+		// expansion like any other byte
+		base := c12BaseXML(c.Kind)
+		if int64(len(base)) <= c.Size {
+			fill := map[string][]byte{"valid-nul-padded": {0}, "valid-ff-padded": {0xff}, "valid-bom-padded": {0xEF, 0xBB, 0xBF}}[c.Payload]
+			out := append([]byte{}, base...)
+			for int64(len(out)) < c.Size {
+				out = append(out, fill...)
+			}
+			return out[:c.Size]
+		}
 	}
 	return bytes.Repeat([]byte{'A'}, int(c.Size))
 }
@@ -143,7 +156,7 @@ func genC12(t *rapid.T) C12Case {
 	if c.Size > capSize {
 		c.Size = capSize
 	}
-	c.Payload = rapid.SampledFrom([]string{"valid-padded", "valid-ws-padded", "run"}).Draw(t, "payload")
+	c.Payload = rapid.SampledFrom([]string{"valid-padded", "valid-padded", "valid-ws-padded", "run", "valid-nul-padded", "valid-ff-padded", "valid-bom-padded"}).Draw(t, "payload")
 	return c
 }
 
@@ -325,6 +338,9 @@ func TestC12_Grid(t *testing.T) {
 				}
 				cases = append(cases, C12Case{Limit: l, Size: rel.s, Payload: "valid-padded", Kind: kind, Level: 6, Relation: rel.n})
 				cases = append(cases, C12Case{Limit: l, Size: rel.s, Payload: "valid-ws-padded", Kind: kind, Level: 1, Relation: rel.n})
+				if L != defaultLimit {
+					cases = append(cases, C12Case{Limit: l, Size: rel.s, Payload: "valid-nul-padded", Kind: kind, Level: 6, Relation: rel.n})
+				}
 				if L != defaultLimit || h.Thorough() {
 					// stored blocks make the compressed form LARGER than its expansion; Huffman-only barely shrinks it
 					cases = append(cases, C12Case{Limit: l, Size: rel.s, Payload: "valid-padded", Kind: kind, Level: 0, Relation: rel.n}, C12Case{Limit: l, Size: rel.s, Payload: "valid-padded", Kind: kind, Level: -2, Relation: rel.n})
